@@ -1224,6 +1224,12 @@ type LCSCase struct {
 	As   []int `json:"as"`
 	Bs   []int `json:"bs"`
 	Fold bool  `json:"fold,omitempty"`
+	// Tol: LCSFunc on ints with the symmetric but NOT transitive relation
+	// |a-b| <= 1 ("equal within a tolerance": fuzzy line matching).  The
+	// documentation asks only for a function "to compare elements".  A common
+	// subsequence is then a monotone matching of positions whose elements are
+	// related, and the optimum the largest such matching.
+	Tol bool `json:"tol,omitempty"`
 	// Lay is the memory layout of the two arguments: 0 separate slices with
 	// cap == len; 1 adjacent windows as|bs of one buffer; 2 adjacent windows
 	// bs|as; 3 as|gap|bs with the gap inside as's capacity.  A function that
@@ -1288,9 +1294,54 @@ func plainLCS[T comparable](as, bs []T) []T { return slice.LCS(as, bs) }
 // checkLCS instantiates the check with the element kind of the case.
 func checkLCS(c LCSCase) (info, string) { return checkLCSObs(c, nil) }
 
+// checkLCSTol: see LCSCase.Tol.
+func checkLCSTol(c LCSCase) (in info, msg string) {
+	rel := func(a, b int) bool { d := a - b; return d >= -1 && d <= 1 }
+	as, bs := slices.Clone(c.As), slices.Clone(c.Bs)
+	errf := func(format string, args ...any) string {
+		return fmt.Sprintf("LCSFunc[|a-b|<=1](as=%s, bs=%s): ", brief(c.As), brief(c.Bs)) + fmt.Sprintf(format, args...)
+	}
+	var got []int
+	if pv := vk.PanicValue(func() { got = slice.LCSFunc(as, bs, rel) }); pv != nil {
+		return in, errf("panicked: %v", pv)
+	}
+	got = slices.Clone(got)
+	if !slices.Equal(as, c.As) || !slices.Equal(bs, c.Bs) {
+		return in, errf("an input was modified")
+	}
+	// optimum: largest monotone matching of related positions
+	m, n := len(c.As), len(c.Bs)
+	prev, cur := make([]int, n+1), make([]int, n+1)
+	for i := 1; i <= m; i++ {
+		for j := 1; j <= n; j++ {
+			cur[j] = max(prev[j], cur[j-1])
+			if rel(c.As[i-1], c.Bs[j-1]) {
+				cur[j] = max(cur[j], prev[j-1]+1)
+			}
+		}
+		prev, cur = cur, prev
+		clear(cur)
+	}
+	want := prev[n]
+	if len(got) != want {
+		return in, errf("result %s has length %d, the largest monotone matching of related elements has %d", brief(got), len(got), want)
+	}
+	// validity: the result's elements are taken from one input, in order, and
+	// each is related to an element of the other input, in order
+	if !(embeds(got, c.As, same) && embeds(got, c.Bs, rel)) && !(embeds(got, c.Bs, same) && embeds(got, c.As, rel)) {
+		return in, errf("result %s is not a subsequence of one input whose elements match, in order, elements of the other", brief(got))
+	}
+	in.nt = want >= 2
+	in.set(c12Fold)
+	return in, ""
+}
+
 // checkLCSObs: o (may be nil) receives the re-validation of the returned
 // slice, see vk.Obs.Retain.
 func checkLCSObs(c LCSCase, o *vk.Obs) (info, string) {
+	if c.Tol {
+		return checkLCSTol(c)
+	}
 	switch c.Elem {
 	case "", elem.Int:
 		return checkLCSOf(c, intKit(), plainLCS[int], o)
@@ -2046,6 +2097,12 @@ func checkUtilOf[T any](c UtilCase, k *ek[T], o *vk.Obs) (in info, msg string) {
 				}
 				if hi-lo > 1 {
 					return in, errf("batch lengths %v differ by more than one", lens(out))
+				}
+				// every batch is capacity-clipped, the last one (and a single batch
+				// covering the whole slice) included: appending to it must not write
+				// into the spare capacity of the input
+				if last := out[len(out)-1]; cap(last) != len(last) {
+					return in, errf("the last batch (length %d) has capacity %d: not clipped, appending to it would write into the input's spare capacity", len(last), cap(last))
 				}
 				if hi != lo {
 					in.set(c17Uneven)
